@@ -53,7 +53,7 @@ man = {
         "serves_properties": [c["property_id"] for c in checks],
         "kind_free_text": "Coq 8.16.1 theorems about executable Gallina models (coq/theories), models tied to /repo on every run by "
                           "vm_compute evaluation of harness-produced cases (Go harness runs the implementation) and, for "
-                          "translated files, by regeneration from the Go source (tools/go2coq)",
+                          "translated files, by regeneration from the Go source on every run (tools/go2coq: C17, C19; tools/tab2coq: C09 tables, C18 cube table; tools/lockfacts: C13 lock and handler facts; tools/par2coq: C10 work-partition call sites)",
     }],
     "checks": checks,
     "not_applicable": na,
